@@ -109,15 +109,11 @@ def atomic_fragments(chk, rid):
            'or infix template it re-associates, e.g. -(x + y) becomes - (x) + (y)'
            % (bad[0] if bad else ('', '')), fi=fi, node=stmts[0])
 
-  infix_loops = [x for x in walk_local(fi.node) if isinstance(x, ast.For) and
-                 'built_in_infix_operators' in norm(x.iter)]
-  if not infix_loops:
-    raise AnalysisError('ConvertToSql: loop over built_in_infix_operators not found')
-  for l in infix_loops:
-    ifs = [x for x in l.body if isinstance(x, ast.If)]
-    if not ifs:
-      raise AnalysisError('ConvertToSql: infix dispatch not recognised')
-    run_branch(ifs[0].body, 'infix operator')
+  disp = K.table_dispatch(FnView(repo, 'expr_translate.QL.ConvertToSql'), 'built_in_infix_operators')
+  if not disp:
+    raise AnalysisError('ConvertToSql: dispatch over built_in_infix_operators not found')
+  for _, hit in disp:
+    run_branch(hit, 'infix operator')
   comb = [x for x in walk_local(fi.node) if isinstance(x, ast.If) and
           isinstance(x.test, ast.Compare) and const_str(x.test.left) == 'combine' and
           dotted(x.test.comparators[0]) == 'expression']
